@@ -18,6 +18,7 @@ BIN_ARITH = ("Add", "Sub", "Mult", "Div", "Mod")
 CMP_OPS = ("Eq", "NotEq", "Lt", "LtE", "Gt", "GtE")
 BOOL_OPS = ("And", "Or")
 UN_OPS = ("Not", "USub")
+ALL_BIN = ("Or", "And", "Eq", "NotEq", "Lt", "LtE", "Gt", "GtE", "Add", "Sub", "Mult", "Div", "Mod")
 LITERAL_KINDS = ("Int", "Float", "Bool", "Str", "Null", "Date", "Time", "DateTime", "Duration", "GUID", "Geo")
 
 _LIT_CLS = {
@@ -74,6 +75,14 @@ def build(shape: tuple, args: Sequence[Any] = ()) -> Any:
         return ast.BoolOp(_op(shape[1], args), build(shape[2], args), build(shape[3], args))
     if k == "UnaryOp":
         return ast.UnaryOp(_op(shape[1], args), build(shape[2], args))
+    if k == "Bin":   # any binary operator: the node class follows the (possibly symbolic) operator
+        name = shape[1][2][args[shape[1][1]]] if isinstance(shape[1], tuple) else shape[1]
+        l, r = build(shape[2], args), build(shape[3], args)
+        if name in BOOL_OPS:
+            return ast.BoolOp(getattr(ast, name)(), l, r)
+        if name in BIN_ARITH:
+            return ast.BinOp(getattr(ast, name)(), l, r)
+        return ast.Compare(getattr(ast, name)(), l, r)
     if k == "Call":
         return ast.Call(build(shape[1], args), [build(s, args) for s in shape[2]])
     if k == "NamedParam":
